@@ -35,6 +35,7 @@ class SymArray(np.ndarray):
         return np.asarray(a, dtype=object).view(cls)
 
     def astype(self, dtype, *a, **k):
+        dtype = _dt(dtype)
         if has_sym(self):
             _hit("astype")
             if dtype in (float, np.float64, np.float32, "float", "float64", object):
@@ -75,6 +76,7 @@ def _wrap(r):
 
 def _zeros_like(fill):
     def f(shape, dtype=float, *a, **k):
+        dtype = _dt(dtype)
         if active() and dtype in (float, None, np.float64):
             r = np.empty(shape, dtype=object)
             r.fill(fill)
@@ -84,6 +86,7 @@ def _zeros_like(fill):
 
 
 def _empty(shape, dtype=float, *a, **k):
+    dtype = _dt(dtype)
     if active() and dtype in (float, None, np.float64):
         r = np.empty(shape, dtype=object)
         r.fill(0.0)
@@ -91,7 +94,17 @@ def _empty(shape, dtype=float, *a, **k):
     return np.empty(shape, dtype, *a, **k)
 
 
+def _dt(dtype):
+    """forsys modules see symfloat / symint under the names float / int: map them back when used as dtypes"""
+    if dtype is symfloat:
+        return float
+    if dtype is symint:
+        return int
+    return dtype
+
+
 def _array(obj, dtype=None, *a, **k):
+    dtype = _dt(dtype)
     if active() and has_sym(obj):
         return np.array(obj, dtype=object, *a, **k).view(SymArray)
     return np.array(obj, dtype, *a, **k)
@@ -312,6 +325,8 @@ class NPProxy(types.ModuleType):
             w = self.__dict__["_wrapped"].get(name)
             if w is None:
                 def w(*a, __real=real, **k):
+                    if "dtype" in k:
+                        k["dtype"] = _dt(k["dtype"])
                     return _wrap(__real(*a, **k))
                 w.__name__ = name
                 self.__dict__["_wrapped"][name] = w
